@@ -91,7 +91,8 @@ static const void *VG64_TK3_KEY; static unsigned VG64_TK3_SIZE; static unsigned 
 #define V64_SCHED_J_IS(ks, a, b) ((ks)->schedule[VG_J].row[0] == (uint16_t)(a) && (ks)->schedule[VG_J].row[1] == (uint16_t)(b))
 
 #define V64_TKN_UNPACK_LOOP \
-    __CPROVER_assigns(index, word, __CPROVER_object_whole(&tk)) \
+    /* no explicit assigns clause: dfcc infers the loop's write set, so the contract does not name the
+       incidental temporary `word` (a change that restructures the unpacking must fail on the invariant, not on a missing identifier) */ \
     __CPROVER_loop_invariant(index <= 8 && (index & 1) == 0) \
     __CPROVER_loop_invariant(V64_UNPACK_PREFIX_OK(tk, VG_T, index)) \
     __CPROVER_decreases(10 - index)
